@@ -1103,7 +1103,10 @@ def gen_ru_cases(rng, exes, quick, cases):
             if K >= 10 and (op in ("exp_mod", "exp_mod.w", "inv_mod", "gcd", "bezout_mod") or quick and op.startswith("op")):
                 continue
             for idx in partitions(n, dests):
-                for rep in range(reps if K <= 8 else max(1, reps // 3)):
+                nrep = reps if K <= 8 else max(1, reps // 3)
+                if tag == "same":
+                    nrep = max(nrep, 4)          # deterministic classes below, whatever the seed
+                for rep in range(nrep):
                     x = None
                     if sk == "bit":
                         x = rng.below(2)
@@ -1113,11 +1116,11 @@ def gen_ru_cases(rng, exes, quick, cases):
                         x = rng.choice([0, 1, W - 1, W, W * W - 1, rng.range(0, W * W - 1), rng.range(0, W * W - 1)])
                     elif sk:
                         x = scalar(rng, sk)
-                    if tag == "same" and rep % 2 == 0:
-                        x = rng.choice([2, 2, 3, 10, 97])        # b == 2 takes its own branch (right_shift_1)
+                    if tag == "same" and rep < 4:
+                        x = 2 if rep < 2 else rng.choice([3, 10, 97, (1 << 32) + 1])        # b == 2 takes its own branch (right_shift_1)
                     vals = class_values(rng, n, dests, reads, idx, lambda k: ru_value(rng, K, small=(tag == "exp" and k == 2)), lambda k: ru_value(rng, K))
-                    if tag == "odd1":
-                        vals = [v | 1 if k in reads else v for k, v in enumerate(vals)]
+                    if tag == "odd1" or tag == "same" and rep < 2:
+                        vals = [v | 1 if k in reads else v for k, v in enumerate(vals)]     # (b == 2: an odd dividend, remainder 1)
                     if op == "gcd" and rep % 2 == 1:
                         g = rng.choice([2, 6, 3 * 5 * 7 * 11, 2 ** 31 + 11])
                         cv = {}
@@ -1127,7 +1130,7 @@ def gen_ru_cases(rng, exes, quick, cases):
                             vals[k] = cv[idx[k]]
                     ex = [x] if sk else []
                     if tag == "same":
-                        ex = [x, rep // 2 % 2]           # 1: the word remainder r and the word divisor b are the same object
+                        ex = [x, rep % 2]                # 1: the word remainder r and the word divisor b are the same object
                     c = Case("recint", "RU", K, op, n, dests, reads, idx, vals, ex, "RecInt::" + op + "(ruint<K>)", RU_NAMES.get(op))
                     if not ru_valid(op, tag, c.vals, W) or not ru_valid(op, tag, c.alias_vals(), W):
                         continue
@@ -1931,6 +1934,10 @@ def main(tier, replay=None):
     with ThreadPoolExecutor(max(1, len(by_exe))) as ex:
         for k, rc, out, err in ex.map(run_exe, list(by_exe)):
             ids = by_exe[k]
+            if rc == 124 and "[timeout" in (err or ""):
+                # our own tooling ran out of time (machine load): an inconclusive stream, not a violation of the property
+                chk.cov.setdefault("inconclusive", []).append("implementation harness %s timed out after %d of %d cases; its cases were not judged" % (k, len(out), len(ids)))
+                continue
             if rc != 0 or len(out) != len(ids):
                 chk.broke("implementation harness %s failed (rc=%s, %d/%d lines)%s" % (k, rc, len(out), len(ids),
                           " at: " + cases[ids[len(out)]].line() if len(out) < len(ids) else ""), err[-2000:])
@@ -1942,6 +1949,13 @@ def main(tier, replay=None):
     # 5. the model
     mlines, mids = [], []
     cand = [i for i, c in enumerate(cases) if drv and model_lines(c)]
+    if quick:
+        # rmint: every operation x partition has >= 24 cases (K x mode x moduli); the quick tier sends every second one to the
+        # model (multi-limb Montgomery arithmetic on Coq's binary positives is the slowest part of the run)
+        rm = [i for i in cand if cases[i].dom == "RM"]
+        drop = set(rm[1::2])
+        cand = [i for i in cand if i not in drop]
+        chk.cov["model_rmint_stride_quick"] = 2
     cap = 40000 if quick else 120000          # the extracted model computes on unary-binary positives: keep its share bounded
     stride = max(1, -(-len(cand) // cap))
     for j, i in enumerate(cand):
@@ -1950,11 +1964,30 @@ def main(tier, replay=None):
             mlines += model_lines(cases[i])
     mout = None
     if drv and mlines:
-        rc, mo, merr = vf.run_lines(drv, "".join(l + "\n" for l in mlines), timeout=1500)
-        if rc != 0 or len(mo) != len(mlines):
-            chk.broke("model driver failed (rc=%s, %d/%d lines)" % (rc, len(mo), len(mlines)), merr[-2000:])
+        # the extracted model computes on Coq's binary positives: its lines are cut into chunks that run side by side,
+        # round-robin so that every chunk gets its share of the expensive (multi-limb) lines
+        nch = 6
+        chunks = [[] for _ in range(nch)]
+        for j in range(len(mids)):
+            chunks[j % nch] += mlines[2 * j:2 * j + 2]
+
+        def run_chunk(ch):
+            return vf.run_lines(drv, "".join(l + "\n" for l in ch), timeout=1500) if ch else (0, [], "")
+        with ThreadPoolExecutor(nch) as ex:
+            res_ch = list(ex.map(run_chunk, chunks))
+        bad_ch = [(rc, len(mo), len(ch), merr) for (rc, mo, merr), ch in zip(res_ch, chunks) if rc != 0 or len(mo) != len(ch)]
+        if bad_ch:
+            timed_out = any(b[0] == 124 and "[timeout" in (b[3] or "") for b in bad_ch)
+            if timed_out:
+                chk.cov.setdefault("inconclusive", []).append("the extracted model driver timed out; no correspondence in this run")
+            else:
+                chk.broke("model driver failed (rc=%s, %d/%d lines)" % bad_ch[0][:3], (bad_ch[0][3] or "")[-2000:])
         else:
-            mout = {i: (mo[2 * j], mo[2 * j + 1]) for j, i in enumerate(mids)}
+            mout = {}
+            for j, i in enumerate(mids):
+                mo = res_ch[j % nch][1]
+                k = 2 * (j // nch)
+                mout[i] = (mo[k], mo[k + 1])
     phase["model_run"] = round(_time.time() - t0, 1); t0 = _time.time()
     # 6. verdicts
     ncorr = 0
